@@ -35,6 +35,8 @@ pub enum Case {
     Fix { bytes: B },
     /// bytes on the class-alphabet tree of C01 (anonymous default leaf, default branch, suffix siblings)
     Class { bytes: B },
+    /// bytes on `fixtree::FIXTREE` with handlers that pull exactly `pulls` required elements (C06)
+    FixArity { bytes: B, pulls: u8 },
     /// bytes on a generated tree
     Gen { tree: Tree, bytes: B },
     /// bytes on tree `idx` of the pool generated from `seed` (bounded-exhaustive token strings)
@@ -47,6 +49,8 @@ type ExpCall = (usize, bool, Vec<ETok>);
 enum Want {
     Success,
     Exactly(i16),
+    /// the last expected call is entered and fails with this code
+    Arity(i16),
     CommandError,
     /// the models stop claiming after the judged prefix
     NoClaim,
@@ -208,21 +212,49 @@ fn expectation(model: &Tree, bytes: &[u8]) -> Option<Expect> {
 
 const N_PLANS: usize = 48;
 
-fn plans() -> Vec<UnitPlan> {
-    (0..N_PLANS).map(|k| UnitPlan { greedy: true, respond: vec![RespDatum::I32(k as i32)], ..Default::default() }).collect()
+fn plans(arity: Option<usize>) -> Vec<UnitPlan> {
+    (0..N_PLANS)
+        .map(|k| match arity {
+            None => UnitPlan { greedy: true, respond: vec![RespDatum::I32(k as i32)], ..Default::default() },
+            Some(m) => UnitPlan { greedy: false, pulls: (0..m).map(|_| crate::rec::Pull { optional: false, as_: crate::rec::PullAs::Raw }).collect(), respond: vec![RespDatum::I32(k as i32)], ..Default::default() },
+        })
+        .collect()
 }
 
 pub fn judge(node: &Node<'static, LogDev>, model: &Tree, bytes: &[u8], obs: &Obs) -> CheckResult {
-    let Some(exp) = expectation(model, bytes) else {
+    judge_arity(node, model, bytes, None, obs)
+}
+
+/// `arity = Some(m)`: every handler pulls exactly `m` required elements. The
+/// first unit whose data count differs fails: -109 when it has fewer (the
+/// handler saw all of them), -108 when it has more (the handler saw the first
+/// `m`); only messages the recogniser calls well-formed are judged.
+pub fn judge_arity(node: &Node<'static, LogDev>, model: &Tree, bytes: &[u8], arity: Option<usize>, obs: &Obs) -> CheckResult {
+    let Some(mut exp) = expectation(model, bytes) else {
         obs.label("no claim (input outside the recognised subset)");
         return Ok(());
     };
+    if let Some(m) = arity {
+        if exp.partial.is_some() || exp.want == Want::CommandError {
+            obs.label("no claim (arity mode judges well-formed messages only)");
+            return Ok(());
+        }
+        if let Some(i) = exp.calls.iter().position(|c| c.2.len() != m) {
+            let fewer = exp.calls[i].2.len() < m;
+            exp.calls.truncate(i + 1);
+            if !fewer {
+                exp.calls[i].2.truncate(m);
+            }
+            exp.want = Want::Arity(if fewer { -109 } else { -108 });
+            obs.label(if fewer { "arity: missing parameter expected" } else { "arity: surplus parameter expected" });
+        }
+    }
     if exp.calls.len() + 1 >= N_PLANS {
         obs.label("no claim (more units than scripted plans)");
         return Ok(());
     }
     let txt = escape(bytes);
-    let mut dev = LogDev::with_plan(plans());
+    let mut dev = LogDev::with_plan(plans(arity));
     dev.default_plan = UnitPlan::greedy();
     let mut ctx = Context::default();
     let mut resp: Vec<u8> = Vec::new();
@@ -230,6 +262,7 @@ pub fn judge(node: &Node<'static, LogDev>, model: &Tree, bytes: &[u8], obs: &Obs
     obs.label(match exp.want {
         Want::Success => "judged: success expected",
         Want::Exactly(_) => "judged: undefined header expected",
+        Want::Arity(_) => "judged: parameter-count error expected",
         Want::CommandError => "judged: command error expected",
         Want::NoClaim => "judged: prefix only",
     });
@@ -279,6 +312,15 @@ pub fn judge(node: &Node<'static, LogDev>, model: &Tree, bytes: &[u8], obs: &Obs
             };
             ensure!(e.get_code() == code, "wrong-error", "{txt:?}: unit {n} designates no node: run returned {}, expected {code}", e.get_code());
             ensure!(got.len() == n, "handler-after-failure", "{txt:?}: unit {n} designates no node, handlers that ran: {:?}", got.iter().map(|g| (g.0, g.1)).collect::<Vec<_>>());
+            ensure!(dev.errors.len() == 1 && dev.errors[0] == e, "hook", "{txt:?}: run returned {e:?}, the hook received {:?}", dev.errors);
+        }
+        Want::Arity(code) => {
+            let e = match &result {
+                Ok(()) => fail!("fault-swallowed", "{txt:?}: unit {} has {} the handler's {} required parameters, yet run returned Ok", n - 1, if code == -109 { "fewer data than" } else { "more data than" }, arity.unwrap_or(0)),
+                Err(e) => *e,
+            };
+            ensure!(e.get_code() == code, "wrong-error", "{txt:?}: unit {} with a wrong parameter count: run returned {}, expected {code}", n - 1, e.get_code());
+            ensure!(got.len() == n, "handler-after-failure", "{txt:?}: unit {} fails with {code}, handlers that ran: {:?}", n - 1, got.iter().map(|g| (g.0, g.1)).collect::<Vec<_>>());
             ensure!(dev.errors.len() == 1 && dev.errors[0] == e, "hook", "{txt:?}: run returned {e:?}, the hook received {:?}", dev.errors);
         }
         Want::CommandError => {
@@ -375,6 +417,7 @@ pub fn check(case: &Case, obs: &Obs) -> CheckResult {
             })
         }),
         Case::Fix { bytes } => FIX_MODEL.with(|m| judge(&crate::fixtree::FIXTREE, m, bytes, obs)),
+        Case::FixArity { bytes, pulls } => FIX_MODEL.with(|m| judge_arity(&crate::fixtree::FIXTREE, m, bytes, Some(*pulls as usize), obs)),
         Case::Class { bytes } => CLASS_MODEL.with(|m| judge(&crate::props::c01::CLASS_TREE, m, bytes, obs)),
         Case::Gen { tree, bytes } => {
             let real = realize(tree);
